@@ -365,7 +365,32 @@ func vWriteAll(wl *vWorkload, opts *WriterOptions) (*Writer, []byte) {
 		vAssert(vWriteRec(w, &wl.recs[i]) == nil, "write call succeeds")
 	}
 	vAssert(w.Close() == nil, "Close succeeds")
+	// the differential on the file bytes is only possible where no byte depends on a CRC value (the engine's CRC is
+	// uninterpreted): checksums off and no attachment in the workload
+	hasAtt := false
+	for i := range wl.recs {
+		hasAtt = hasAtt || wl.recs[i].kind == vKAttachment
+	}
+	if !opts.IncludeCRC && !hasAtt {
+		vObserveBytes("written_file", sink.b)
+	}
 	return w, sink.b
+}
+
+// vObserveBytes: engine-vs-native differential. The engine evaluates length and a rolling hash of b under the
+// witness model; the native replay computes the same from the real code's output and must agree.
+func vObserveBytes(label string, b []byte) {
+	vObserve(label+"_len", uint64(len(b)))
+	// byte sum and position-weighted byte sum (kept to additions: cheap for the term layer and the solver)
+	var h, g uint64
+	for i := range b {
+		h += uint64(b[i])
+		if i%3 == 0 {
+			g += uint64(b[i])
+		}
+	}
+	vObserve(label+"_sum", h)
+	vObserve(label+"_sum3", g)
 }
 
 func vExpectedLibrary(opts *WriterOptions, h *Header) string {
